@@ -65,15 +65,21 @@ package keeper
 
 //@ func (Keeper).AppendPriceTR
 //@   requires nextRoundRaw(ctx, tokenID) == nil || (0 <= be2u64(nextRoundRaw(ctx, tokenID)) && be2u64(nextRoundRaw(ctx, tokenID)) < 18446744073709551615)
-//@   flag pure=AggregatorContext).GetParams,Keeper).GetParams,GetAssetIDsFromTokenID,IsNST
+//@   flag pure=AggregatorContext).GetParams,Keeper).GetParams,GetAssetIDsFromTokenID,IsNST,GetParamsMaxSizePrices
 //@   modifies state(ctx)
 //@   ensures[C12.aptr.accept]  result <==> (priceTR.RoundID == old(nextRound(ctx, tokenID)))
 //@   ensures[C12.aptr.reject]  !result ==> state(ctx) == old(state(ctx))
 //@   ensures[C12.aptr.advance] result ==> nextRound(ctx, tokenID) == old(nextRound(ctx, tokenID)) + 1 &&
 //@        roundRaw(ctx, tokenID, priceTR.RoundID) != nil &&
 //@        unm["x/oracle/types.PriceTimeRound"](roundRaw(ctx, tokenID, priceTR.RoundID)) == norm["x/oracle/types.PriceTimeRound"](priceTR)
+// ... and no more than the configured number of rounds is retained: appending round n drops round n - MaxSizePrices
+// (whenever that is a round at all, i.e. n > MaxSizePrices) - also round 1.
+//@   ensures[C12.aptr.retain] result && defined(res_GetParamsMaxSizePrices_0) && old(nextRound(ctx, tokenID)) > res_GetParamsMaxSizePrices_0 ==>
+//@        roundRaw(ctx, tokenID, old(nextRound(ctx, tokenID)) - res_GetParamsMaxSizePrices_0) == nil
 //@ loop #1
 //@   invariant nextRound(ctx, tokenID) == old(nextRound(ctx, tokenID)) + 1
+//@   invariant[C12.aptr.retain] old(nextRound(ctx, tokenID)) > res_GetParamsMaxSizePrices_0 ==>
+//@        roundRaw(ctx, tokenID, old(nextRound(ctx, tokenID)) - res_GetParamsMaxSizePrices_0) == nil
 //@   invariant roundRaw(ctx, tokenID, priceTR.RoundID) != nil &&
 //@        unm["x/oracle/types.PriceTimeRound"](roundRaw(ctx, tokenID, priceTR.RoundID)) == norm["x/oracle/types.PriceTimeRound"](priceTR)
 
